@@ -178,10 +178,20 @@ var profiles = []profile{
 		variant: [5]int{1, 0, 0, 0, 0}, length: [5]int{6, 1, 0, 0, 0},
 		dd: [7]int{10, 2, 0, 1, 1, 1, 0}, holdBefore: [5]int{2, 4, 4, 1, 0}},
 	{maxPeers: 3, minReq: 3, maxReq: 14,
-		entry:   [14]int{1, 7, 2, 5, 0, 1, 0, 1, 0, 0, 0, 0, 0, 0},
+		entry:   [14]int{1, 8, 1, 2, 0, 1, 0, 1, 0, 0, 0, 0, 0, 0},
 		gap:     [10]int{4, 1, 2, 3, 4, 4, 3, 2, 3, 2},
 		variant: [5]int{20, 0, 1, 0, 0}, length: [5]int{8, 2, 0, 0, 0},
 		dd: [7]int{4, 2, 0, 0, 0, 6, 0}, holdBefore: [5]int{10, 1, 1, 0, 0}},
+	{maxPeers: 3, minReq: 3, maxReq: 14, peerBias: 3,
+		entry:   [14]int{1, 8, 1, 2, 0, 1, 0, 1, 0, 0, 0, 0, 0, 0},
+		gap:     [10]int{4, 1, 2, 3, 4, 4, 3, 2, 3, 2},
+		variant: [5]int{20, 0, 1, 0, 0}, length: [5]int{8, 2, 0, 0, 0},
+		dd: [7]int{4, 2, 0, 0, 0, 6, 0}, holdBefore: [5]int{10, 1, 1, 0, 0}},
+	{maxPeers: 3, minReq: 3, maxReq: 14,
+		entry:   [14]int{0, 2, 4, 6, 1, 1, 0, 0, 0, 0, 0, 0, 0, 0},
+		gap:     [10]int{4, 1, 2, 3, 4, 4, 3, 2, 3, 2},
+		variant: [5]int{1, 0, 0, 0, 0}, length: [5]int{8, 2, 0, 0, 0},
+		dd: [7]int{3, 2, 0, 0, 0, 8, 0}, holdBefore: [5]int{10, 1, 0, 0, 0}},
 }
 
 // C16_BASIC_DIALER=1 gives the service a basic host (identify) as its dialer host instead of the blank host that
@@ -198,16 +208,20 @@ func run(t *testing.T, tape *simrt.Tape) *common.Outcome {
 	w := &world{o: o, byNonce: map[uint64]*reqRec{}}
 
 	// ---- configuration -------------------------------------------------------------------
-	// The stratum is drawn first: 0 = general mix, 1 = concurrency (generous per-minute limits, bursts of one
-	// peer's requests that need dial data and are held before the data is sent), 2 = windows (tight per-minute
-	// limits, many cheap requests spread over minutes).
-	stratum := g.Weighted(2, 1, 1)
+	// The stratum is drawn first: 0 = general mix; 1 = concurrency (generous per-minute limits, bursts of one
+	// peer's requests that need dial data and are held before the data is sent); 2, 3, 4 = windows (ONE tight
+	// per-minute limit — global, per-peer, dial-data — the others generous; many cheap requests over minutes).
+	stratum := g.Weighted(3, 2, 1, 1, 1)
 	pf := profiles[stratum]
 	switch stratum {
 	case 1:
 		w.lim = limits{rpm: 12, perPeer: 8, dialData: 8, maxConc: g.Range(1, 3)}
 	case 2:
-		w.lim = limits{rpm: g.Range(1, 4), perPeer: g.Range(1, 3), dialData: g.Range(1, 3), maxConc: 3}
+		w.lim = limits{rpm: g.Range(1, 3), perPeer: 8, dialData: 8, maxConc: 3}
+	case 3:
+		w.lim = limits{rpm: 10, perPeer: g.Range(1, 3), dialData: 8, maxConc: 3}
+	case 4:
+		w.lim = limits{rpm: 10, perPeer: 8, dialData: g.Range(1, 3), maxConc: 3}
 	default:
 		w.lim = limits{rpm: g.Range(2, 9), perPeer: g.Range(1, 5), dialData: g.Range(1, 4), maxConc: g.Range(1, 3)}
 	}
